@@ -33,6 +33,9 @@ CHECKS["C08"] = ("exhaustive enumeration of small class/interface hierarchies (+
 CHECKS["C09"] = ("controlled-schedule enumeration (DFS with replay) and rapid-drawn schedules over real goroutines parked at verif-tag hook points, history invariants at quiescence; plus -race stress of spawn scripts",
          "A controlled scheduler owns every decision point of Send/Close/Receive (hook points between the closed test and the chan operation); all interleavings of the small configurations are enumerated, larger ones drawn by rapid and shrunk; invariants: exactly-once, per-sender order, no phantom values, send after close fails, no panic, nobody stuck. A second engine runs spawn-based producer/consumer scripts through the interpreter built with -race at GOMAXPROCS 1..16.",
          "Needs the verif build tag (hook in std/channel); blocking inside a real chan operation is recognised by a step timeout that only shapes the visited schedules.")
+CHECKS["C10"] = ("seeded concurrent stress under the race detector with a sequential-witness (linearizability-style) check of the recorded call history",
+         "Rapid-drawn histories of 2..16 goroutines x up to 10^4 mixed registry calls over overlapping names on one VM, run in a -race worker at GOMAXPROCS 1..16; the worker must survive without a fatal concurrent-map error or race report, and the stamped history must admit a sequential witness (one winner per name, completed registrations visible, no phantom lookups, one global cell per name, final state = union).",
+         "Go's scheduler owns the interleaving (stress, not schedule control): a green run is evidence, not exclusion; the race detector turns a latent race into a report without needing the bad interleaving.")
 NOT_YET = {
 }
 
